@@ -72,3 +72,8 @@ ROUNDTRIP = {"shipped": {"MissingReqPolicy": "TypeError"}, "repaired": {"Missing
 
 def roundtrip_variant() -> dict:
     return ROUNDTRIP[os.environ.get("XV_RT_VARIANT", "repaired")]
+
+
+# Handler.tla: WrapperPolicy "own" after the fix: commit for F6
+def handler_variant() -> str:
+    return os.environ.get("XV_HANDLER_VARIANT", "own")
